@@ -352,6 +352,17 @@ def handle (line : String) : String :=
        | none => "pyerr ValueError"
        | some u => s!"ok {u.authAlg} {hex u.authKey} {u.privAlg} {hex u.privKey}")
     | _, _, _, _, _ => bad
+  | ["refresh", given, reqAuth, ncalls, outcomes] =>
+    match parseBool01 given, parseBool01 reqAuth, ncalls.toNat?, parseList parseBool01 outcomes with
+    | some g, some ra, some n, some oc =>
+      let r := Py.refreshes n (Py.RefreshState.init g ra) oc
+      let showAct : Py.Act → String
+        | .probe true => "P1"
+        | .probe false => "P0"
+        | .setKeys => "K"
+      let calls := r.1.map (fun c => ",".intercalate (c.1.map showAct) ++ (if c.2 then "!" else ""))
+      s!"ok {";".intercalate calls}|{if r.2.deferred then 1 else 0}{if r.2.toRefresh then 1 else 0}"
+    | _, _, _, _ => bad
   | ["recvsched", mode, t, d, arrivals] =>
     let parseArr (x : String) : Option Timing.Arrival :=
       match x.splitOn ":" with
